@@ -318,6 +318,35 @@ const NATIVE_CALLS: &[&str] = &[
     "new Map([[@N, @S]]).get(@N)", "new Set(@A).has(@N)", "structuredClone(@A)", "Symbol(@S).toString()", "Symbol.for(@S).description", "[@N, @N].sort((a: number, b: number) => a - b)",
     "`${@N}|${@S}|${@A}`", "@S + @N + @A", "(@N) + (@N)", "@S < @S", "encodeURIComponent ? encodeURIComponent(@S) : 0", "@S.codePointAt(@I)?.toString(16)",
     "Number.parseFloat(@S).toFixed(2)", "(@N).toLocaleString()", "String(@A)", "isNaN(@S as any)", "Array.isArray(@A.flat(@Z))", "@A.map(String).join().length",
+    // objects, reflection, collections, functions, iterators
+    "Object.getOwnPropertyNames(@S)", "Object.getOwnPropertyDescriptor(@A, @I)", "Object.getOwnPropertyDescriptors(@S)", "Object.assign([], @S, @A)", "Object.assign({}, @N, @S)",
+    "Object.create(null, { a: { value: @N, enumerable: true } })", "Object.create(@A)", "Object.setPrototypeOf({}, @A)", "Object.getPrototypeOf(@N)", "Object.freeze(@A).length",
+    "Object.defineProperty([], \"length\", { value: @Z })", "Object.defineProperty(@A, @Z, { value: 1 })", "Object.defineProperty({}, \"a\", { get: @N as any })", "Object.defineProperties({}, @A as any)",
+    "Object.entries(@S).length", "Object.values(@N)", "Object.fromEntries(@A as any)", "Object.fromEntries(@S as any)", "Object.groupBy(@A, (x: any) => String(x))", "Object.is(@N, @N)", "Object.hasOwn(@A, @I)",
+    "Reflect.ownKeys(@A)", "Reflect.get(@A, @I)", "Reflect.set(@A, @Z, 1)", "Reflect.has(@A, @I)", "Reflect.deleteProperty(@A, @I)", "Reflect.apply(Math.max, null, @A)", "Reflect.apply(@S.slice, @S, [@I, @I])",
+    "Reflect.construct(Array, [@Z])", "Reflect.construct(Date, @A)", "Reflect.getPrototypeOf(@A)", "Reflect.defineProperty({}, @S, { value: @N })",
+    "new Map(@A as any)", "new Map([[@A, @N]]).size", "new Set(@S).size", "new Set(@A).add(@N).size", "new Map().set(@N, @S).get(@N)", "[...new Map([[@N, @S]]).entries()]", "new Set([@N, @N, @N]).size",
+    "new Map([[@N, 1]]).delete(@N)", "new Set(@A).delete(@N)", "Array.from(new Set(@S))", "Array.from(@S, (c: string, i: number) => c + i)", "Array.from(@A, @N as any)", "Array.from(@N as any)",
+    "Array.of(@N, @S).length", "Array.prototype.slice.call(@S, @I, @I)", "Array.prototype.map.call(@S, (c: string) => c)", "Array.prototype.join.call({ length: @Z, 0: \"a\" }, @S)", "Array.prototype.indexOf.call(@S, @S)",
+    "String.prototype.slice.call(@N, @I)", "String.prototype.padStart.call(@N, @Z, @S)", "String.prototype.at.call(@A, @I)", "String.raw({ raw: @A } as any, @N, @S)", "String.raw({ raw: @S } as any, @N)",
+    "Function.prototype.call.call(Math.abs, null, @N)", "Math.max.apply(null, @A as any)", "Math.min(...@A as any)", "((...r: any[]) => r.length)(...@S)", "(function (a: any, b: any) { return arguments.length; }).apply(null, @A)",
+    "(function () { return arguments[@I]; })(1, 2)", "((a: any = @N, b: any = a) => [a, b])()", "new (class { v: any = @N; static s: any = @S; })().v", "(() => { const { a = @N, ...r }: any = { b: @S }; return [a, r]; })()",
+    "(([x, y = @N, ...r]: any) => [x, y, r])(@A)", "(([x, y]: any) => [x, y])(@S)", "(() => { const [a, b]: any = new Set(@A); return [a, b]; })()", "(() => { for (const c of @S) { return c; } return 0; })()",
+    "(() => { let n = 0; for (const k in @A) { n++; } return n; })()", "(() => { let n = 0; for (const k in (@S as any)) { n++; } return n; })()", "@A.entries().next().value", "@S[Symbol.iterator]().next()", "@A[Symbol.iterator]().next().value",
+    "Symbol(@N as any).description", "Symbol.keyFor(Symbol.for(@S))", "Symbol.for(@S) === Symbol.for(@S)", "typeof Symbol.iterator", "({ [Symbol.toPrimitive]: () => @N } as any) + 1", "`${({ toString: () => @S })}`",
+    "@N + ({ valueOf: () => @N } as any)", "(@S as any) * (@N)", "(@S as any) - (@A as any)", "(@A as any) + (@A as any)", "(@N) / (@N)", "(@N) % (@N)", "~(@N)", "!(@S)", "typeof (@A)", "void (@N)",
+    "(@N) | (@N)", "(@N) & (@N)", "(@N) ^ (@N)", "(@N) >> @I", "(@S) == (@N as any)", "(@A as any) == (@S as any)", "(@N) === (@N)", "(@S) <= (@S)", "(@A as any) > (@N as any)", "(@S) in ({ a: 1 } as any) ? 1 : 0",
+    "(@A) instanceof Array", "(@N as any) instanceof Number", "(@S as any)?.length?.toFixed(@I)", "(@A as any)?.[@I]?.x", "(@N as any) ?? @S", "delete (@A as any)[@I]", "((o: any) => { o[@S] = @N; return Object.keys(o); })({})",
+    "((o: any) => { o[@Z] = 1; return o.length; })([])", "((o: any) => { o.length = @Z; o.push(1); return o.length; })([1, 2])", "((o: any) => { o[@N] = 1; return JSON.stringify(o); })({})",
+    "Error(@S).message", "new Error(@S, { cause: @A }).cause", "new TypeError(@N as any).message", "new RangeError(@S).stack?.length", "String(new Error(@S))", "Object.prototype.toString.call(@A)", "Object.prototype.toString.call(@N)",
+    "Number.prototype.toFixed.call(@N, @I)", "Number.prototype.toString.call(@S as any, @I)", "Boolean(@S) && Boolean(@A)", "Number(@A as any)", "BigInt === undefined ? 0 : 1", "parseInt(@S)", "Number.parseInt(@S, @I)",
+    "isFinite(@N)", "Number.isNaN(@S as any)", "Math.floor(@N) + Math.ceil(@N)", "Math.pow(@N, @N)", "Math.log2(@N) + Math.log10(@N)", "Math.fround(@N)", "Math.imul(@N, @N)", "Math.min() + Math.max()", "Math.abs(@S as any)",
+    "new Date(@I, @I, @I, @I, @I, @I, @I).getTime()", "new Date(@S).toISOString()", "Date.parse(@S)", "new Date(@N).getTimezoneOffset?.()", "new Date(@N).toLocaleDateString?.()", "new Date(@N).getDay()", "new Date(@N).getUTCHours()",
+    "new Date(0).setMinutes(@N, @N, @N)", "new Date(0).setSeconds(@N)", "new Date(0).setMilliseconds(@N)", "new Date(0).setTime(@N)", "new Date(@N).valueOf() === @N", "new Date(new Date(@N)).getTime()", "Date.UTC(@I)",
+    "JSON.stringify(@S)", "JSON.stringify({ a: [@N, @S, @A] }, (k: string, v: any) => v)", "JSON.stringify(@A, [@S, @I] as any)", "JSON.stringify({ toJSON: () => @N })", "JSON.parse(@S, (k: string, v: any) => v)", "JSON.parse(\"[1e999, -1e999, 1e-999]\")",
+    "JSON.parse(\"\\\"\\\\ud800\\\"\")", "JSON.stringify(\"\\ud800\")", "JSON.stringify({ [@S]: @N })", "JSON.stringify([undefined, () => 1, Symbol(\"s\")])", "JSON.rawJSON ? JSON.rawJSON(@S as any) : 0", "JSON.isRawJSON ? JSON.isRawJSON(@A) : 0",
+    "new RegExp(@S, \"g\").exec(@S)", "new RegExp(\"(?<n>\" + @S + \")\")", "@S.replace(new RegExp(@S, \"g\"), \"$&$1$<n>$`$'\")", "@S.replace(/(?<c>.)/gu, \"$<c>$<c>\")", "@S.replaceAll(/./g, (m: string, o: number) => m + o)", "@S.split(/(.)/, @I)",
+    "/[/.exec ? 1 : 0", "new RegExp(\"[\" + @S + \"]\").test(@S)", "new RegExp(\"a{\" + @I + \"}\").test(\"aaa\")", "new RegExp(\"\\\\\" + @I).test(@S)", "/(?:)/.test(@S)", "/\\u{1F600}/u.test(@S)", "@S.match(/\\p{L}/gu)",
 ];
 
 /// A program of 8..24 such calls, each wrapped so that a thrown error is caught by the script.
@@ -365,6 +394,10 @@ pub fn alloc_templates() -> Vec<(&'static str, &'static str)> {
         ("array-from-length", "Array.from({ length: N }).length"),
         ("array-tostring", "String(new Array(N)).length"),
         ("json-stringify-array", "JSON.stringify(new Array(N)).length"),
+        ("array-index-assign", "const a: any[] = []; a[N] = 1; a.length"),
+        ("reflect-set-index", "const a: any[] = []; Reflect.set(a, N, 1); a.length"),
+        ("define-property-index", "const a: any[] = []; Object.defineProperty(a, N, { value: 1 }); a.length"),
+        ("array-with-spread-length", "Array.apply(null, { length: N } as any).length"),
     ]
 }
 
